@@ -15,6 +15,7 @@ use crate::render::{Pos, Rendered};
 use crate::{check, fail};
 use arbitrary::Unstructured;
 use serde_json::json;
+use std::collections::BTreeMap;
 
 pub struct C09;
 
@@ -236,6 +237,59 @@ pub fn check_spans(cx: &mut CaseCtx, p: &Program, rendered: &[Rendered], state: 
                 s.end,
                 first.slashes,
                 last.text_end,
+                src(fi)
+            );
+        }
+    }
+    // ... and on the rows of its own section: the overview on the overview's lines, a tag (with its
+    // identifier, message and links) on the tag line and its continuation lines - not on the line
+    // of the tag that follows
+    let models: BTreeMap<String, &crate::doc::DocModel> = crate::c16::commentables(p)
+        .into_iter()
+        .filter_map(|c| c.2.docm.as_deref().map(|m| (c.0, m)))
+        .collect();
+    for (path, parts) in &spans.docs {
+        let fi = file_index(path);
+        let (Some(doc_lines), Some(m)) = (rendered[fi].docs.get(path), models.get(path)) else { continue };
+        if doc_lines.len() != m.lines().len() {
+            continue;
+        }
+        // section name -> (first row, last row)
+        let mut sections: BTreeMap<String, (usize, usize)> = BTreeMap::new();
+        let mut at = 0usize;
+        if !m.overview.is_empty() {
+            sections.insert("overview".into(), (doc_lines[0].slashes.0, doc_lines[m.overview.len() - 1].slashes.0));
+            at = m.overview.len();
+        }
+        let (mut np, mut nr, mut ns) = (0, 0, 0);
+        for t in &m.tags {
+            let (name, len) = match t {
+                crate::doc::Tag::Param { cont, .. } => {
+                    np += 1;
+                    (format!("param{}", np - 1), 1 + cont.len())
+                }
+                crate::doc::Tag::Returns { cont, .. } => {
+                    nr += 1;
+                    (format!("returns{}", nr - 1), 1 + cont.len())
+                }
+                crate::doc::Tag::See { .. } => {
+                    ns += 1;
+                    (format!("see{}", ns - 1), 1)
+                }
+            };
+            sections.insert(name, (doc_lines[at].slashes.0, doc_lines[at + len - 1].slashes.0));
+            at += len;
+        }
+        for (label, sp) in parts {
+            let section = label.split('/').next().unwrap_or("");
+            let Some((r0, r1)) = sections.get(section) else { continue };
+            cx.label("doc-section-rows-checked");
+            check!(
+                sp.start.0 >= *r0 && sp.end.0 <= *r1,
+                format!("doc-span-outside-its-section/{}", label.split('/').map(|x| x.trim_end_matches(char::is_numeric)).collect::<Vec<_>>().join("/")),
+                "{path}: doc comment part {label} spans {:?}..{:?}, but its section occupies rows {r0}..{r1}\n--- source ---\n{}",
+                sp.start,
+                sp.end,
                 src(fi)
             );
         }
@@ -736,6 +790,7 @@ impl Check for C09 {
     fn assumptions(&self) -> Vec<String> {
         vec![
             "a '\\r' before the line break counts as part of a doc comment's line".into(),
+            "a part of a doc comment (overview, a tag with its identifier / message / links) lies on the rows of its own section, not only somewhere in the comment".into(),
             "an escaped identifier's span may start at the backslash or at the first letter".into(),
             "a type reference's span may or may not include its leading attributes".into(),
             "an element's span may end at the end of any of its tokens at or after its name".into(),
